@@ -443,7 +443,10 @@ impl Client<'_> {
                 // implementation whose state is exactly "the bytes delivered" would otherwise sit
                 // inside a character, too)
                 let delivered_whole_chars = std::str::from_utf8(&self.h.st().accepted).is_ok();
-                if self.moves_on && self.aftermath.is_none() && !fmt_keeps_going(op) && is_char_boundary(&self.t.input, c_before + buf.len()) && delivered_whole_chars {
+                if self.moves_on && self.aftermath.is_none() && !fmt_keeps_going(op) && is_char_boundary(&self.t.input, c_before + buf.len()) && delivered_whole_chars && buf.is_ascii() {
+                    // (... and only for records without multi-byte characters: a formatting layer
+                    // may hand the record on in slices of its own choosing, and a failure at a
+                    // slice boundary inside a character leaves the same situation)
                     // error aftermath: the client logs the failure and carries on with the next
                     // record on the same stream.  CAN abandons whatever sequence the stream was
                     // left in (where exactly it stopped inside the failed record is unspecified)
